@@ -26,7 +26,7 @@ def run(ctx, rep):
     rch = rep.rule("chain", "file -> lines (read().splitlines(), utf-8-sig) -> framing -> section route -> dispatcher -> builders: every link "
                             "hands the lines on unchanged", floor=10)
     from .chain import check_chain
-    check_chain(ctx, rch, "instrument", strict=True)
+    check_chain(ctx, rch, "instrument", strict=True, recognisers=("chartparse.instrument.NoteEvent.ParsedData", "chartparse.instrument.StarPowerEvent.ParsedData"))
     rfo = rep.rule("folds", "each kind's data are folded datum by datum, in order, by that kind's own builder with its predecessor and the tempo map", floor=6)
     from .timing import Timing as _T
     _T(ctx).check_folds(rfo)
